@@ -129,6 +129,9 @@ def dry_work(chunk):
             argv += ["--brokerid", BROKERID]
         # interleave options of different types on the command line: order within a type must be kept
         per = {ty: [f"{ty[:2]}{k}-{n}" for k in range(n)] for ty, n in zip(TYPES, counts)}
+        if "sameids" in flags:
+            # one number under several account types (credit-union member numbers): an account is its type AND its number
+            per = {ty: [f"100{k + 1}" for k in range(n)] for ty, n in zip(TYPES, counts)}
         for k in range(2):
             for ty in (TYPES if cmd == "stmt" else TYPES[:5]):
                 if k < len(per[ty]):
@@ -141,6 +144,8 @@ def dry_work(chunk):
         for f in flags:
             if f == "verbose":
                 argv += ["-v", "-v"]
+                continue
+            if f == "sameids":
                 continue
             argv.append({"inctran": "--no-transactions", "incbal": "--no-balances", "incpos": "--no-positions", "incoo": "--open-orders"}[f])
         fl = {"inctran": "inctran" not in flags, "incbal": "incbal" not in flags, "incpos": "incpos" not in flags, "incoo": "incoo" in flags}
@@ -349,6 +354,9 @@ def run(ctx):
             jobs.append(("dry", ("stmt", base, (None, None, DATE_TEXTS[4]), fs)))
             jobs.append(("dry", ("stmt", base, (DATE_TEXTS[1], DATE_TEXTS[2], DATE_TEXTS[3]), fs + ("verbose",))))
     jobs.append(("dry", ("stmt", (2, 1, 1, 1, 2, 2), nd, ("verbose",))))
+    for counts in ((1, 1, 0, 0, 1, 1), (2, 2, 1, 1, 2, 2), (1, 0, 1, 0, 0, 0), (0, 1, 0, 1, 1, 0)):
+        jobs.append(("dry", ("stmt", counts, nd, ("sameids",))))
+        jobs.append(("dry", ("stmtend", counts[:5] + (0,), (DATE_TEXTS[1], None, None), ("sameids",))))
     jobs.append(("dry", ("stmtend", (2, 1, 1, 1, 2, 0), (DATE_TEXTS[1], DATE_TEXTS[2], None), ("verbose",))))
     kinds = [(ty, st) for ty in TYPES for st in STATUSES]
     seqs = [()] + [(k,) for k in kinds] + list(itertools.product(kinds, repeat=2))
